@@ -157,6 +157,15 @@ pub fn run(ctx: &Ctx) {
         let toks: Vec<String> = idx.iter().enumerate().map(|(j, x)| if j == p { e[k].clone() } else { w[*x].to_string() }).collect();
         check_phrase(ctx, "S4c-edit-of-the-word-in-place", i, &toks.join(" "));
     });
+    // S4d: the whole value wrapped the way env files, shells and copy-paste leave it: quotes of every kind, brackets, a
+    // trailing comma or semicolon, a shell comment - glued to the first / last word these are tokens that are not list words
+    let wraps: [(&str, &str); 14] = [("\"", "\""), ("'", "'"), ("`", "`"), ("\u{201c}", "\u{201d}"), ("\u{2018}", "\u{2019}"), ("(", ")"), ("[", "]"), ("<", ">"), ("", ","), ("", ";"), ("", "."), ("MNEMONIC=", ""), ("\"", ""), ("", "'")];
+    ctx.sweep("S4d-wrapped-value", "a valid phrase of every length wrapped in 14 ways (double / single / back / typographic quotes, brackets, trailing , ; ., an assignment prefix, an unmatched quote), glued and blank-separated: glued it is not made of list words and is rejected; separated by blanks the wrapper is a token of its own and is rejected too", (lens.len() * wraps.len() * 2) as u64, |i| {
+        let n = lens[(i / (wraps.len() as u64 * 2)) as usize]; let (a, b) = wraps[((i / 2) % wraps.len() as u64) as usize]; let spaced = i % 2 == 1;
+        let idx = valid_indices(ctx.seed, n, 4, None); let body: Vec<&str> = idx.iter().map(|k| w[*k]).collect();
+        let text = if spaced { format!("{a} {} {b}", body.join(" ")) } else { format!("{a}{}{b}", body.join(" ")) };
+        check_phrase(ctx, "S4d-wrapped-value", i, text.trim());
+    });
     // S5: whitespace layout
     let seps = [" ", "  ", "\t", "\n", "\r\n", " \t ", "\u{a0}", "\u{2003}", "\u{3000}", "\u{b}", "\u{c}", "\u{85}", "\u{200b}", ""];
     let edges = ["", " ", "\n", "\t \r\n", "\u{3000}"];
